@@ -1,6 +1,6 @@
 (* C02 correspondence cases: store histories (Model/ContStore.v, case02) and byte-level appends
    (Model/LogBytes.v) in one case type, so one harness run writes one family of case files. *)
-From RipV Require Import Base.Prelude Model.Frames Model.Log Model.ContStore Model.LogBytes Model.NoopPlan.
+From RipV Require Import Base.Prelude Model.Frames Model.Log Model.ContStore Model.LogBytes Model.NoopPlan Model.C02Decide.
 
 (* one EventLog::append of a frame whose line (frame + newline) has cb_len bytes, on a writer with an
    empty buffer: by how many bytes has the FILE grown at the hook point log.body_written (after the
@@ -59,11 +59,75 @@ Record case02b := { c2b_calls : list call2; c2b_expect : list N }.
 Definition model_obs_c02b (c : case02b) : list N :=
   let '(ns, fin) := run_calls2 empty_state (c2b_calls c) in ns ++ canon_log (s_log fin).
 
+(* ---------- histories of the third round (builder log02c; Model/C02Decide.v) ----------
+   The decisions that used to be read off the implementation's response are taken by the model:
+   D k        a call of the earlier rounds (capability with facts, cache fault, garbage, restart, ageing);
+              a restart / ageing also re-loads the in-memory index from the index file
+   DEnsure    ensure_default of the open store: in-memory index, else the LOG, else create
+   DCursor    append_provider_cursor_updated(provider, endpoint?, model?) - Option as 0 / 1+x
+   DRotate    provider_cursor_rotate_v1 with the filters provider? / endpoint? / model?: the model searches
+   DLineage   branch / handoff (validation outcome from the response); the child carries the store's workspace
+   DIdx       the harness replaces continuities/index.json (absent, unreadable, other version, older content)
+   DReopen    the store is dropped and opened for workspace ws
+   DRaw       a frame written to the log behind the store's back (no cache told), then a restart *)
+Inductive call3 :=
+| D (k : call2)
+| DEnsure
+| DCursor (th : nat) (p e m : N)
+| DRotate (th : nat) (fp fe fm : N)
+| DLineage (branch : bool) (th : nat) (ok : bool)
+| DIdx (x : idx_fault)
+| DReopen (ws : N)
+| DRaw (th : nat) (t : etype) (ar : list N).
+
+Definition reloads (k : call2) : bool :=
+  match k with K KRestart | KAge => true | _ => false end.
+
+Definition req_of (fp fe fm : N) : rot_req :=
+  {| rq_provider := opt_of fp; rq_endpoint := opt_of fe; rq_model := opt_of fm |}.
+
+(* the call and what the harness observes of it besides the log (DEnsure: answer_code) *)
+Definition do_call3 (d : dstate) (k : call3) : dstate * list N :=
+  let st := d_st d in
+  match k with
+  | D k2 =>
+    let st' := do_call2 st k2 in
+    (if reloads k2
+     then {| d_st := st'; d_ws := d_ws d; d_file := d_file d; d_mem := load_index (d_file d) |}
+     else with_st d st', [])
+  | DEnsure => let '(d', a) := ensure false d in (d', [answer_code (d_ws d) (s_log (d_st d')) a])
+  | DCursor th p e m =>
+    (with_st d (exec (MTarget (nth_thread (s_log st) th)
+                      :: locked_append EContinuityProviderCursorUpdated [p; e; m]) st), [])
+  | DRotate th fp fe fm =>
+    let c := nth_thread (s_log st) th in
+    (with_st d (exec (rotate_prog false (knows (d_mem d) c) c (req_of fp fe fm) st) st), [])
+  | DLineage br th ok =>
+    (lineage d (if br then EContinuityBranched else EContinuityHandoffCreated) (nth_thread (s_log st) th) ok, [])
+  | DIdx x =>
+    ({| d_st := st; d_ws := d_ws d; d_file := apply_idx_fault (s_log st) x; d_mem := d_mem d |}, [])
+  | DReopen ws => (reopen d ws, [])
+  | DRaw th t ar =>
+    (reopen (with_st d (raw_append st (nth_thread (s_log st) th) t ar)) (d_ws d), [])
+  end.
+
+Fixpoint run_calls3 (d : dstate) (ks : list call3) : list N * dstate :=
+  match ks with
+  | [] => ([], d)
+  | k :: r => let '(d', extra) := do_call3 d k in
+              let '(ns, fin) := run_calls3 d' r in (nlen (s_log (d_st d')) :: extra ++ ns, fin)
+  end.
+
+Record case03 := { c3_calls : list call3; c3_expect : list N }.
+Definition model_obs_c03 (c : case03) : list N :=
+  let '(ns, fin) := run_calls3 dstate0 (c3_calls c) in ns ++ canon_log (s_log (d_st fin)).
+
 Inductive case02x :=
 | CStore (c : case02)
 | CStore2 (c : case02b)
 | CBytes (c : case_bytes)
-| CPlan (c : case_plan).      (* what one auto / auto-schedule call planned vs the planner of Model/NoopPlan.v *)
+| CPlan (c : case_plan)       (* what one auto / auto-schedule call planned vs the planner of Model/NoopPlan.v *)
+| CDecide (c : case03).       (* histories in which ensure_default and provider-cursor-rotate are decided by the model *)
 
 (* zl: does the source count a zero-byte checkpoint sidecar as absent (Model/NoopPlan.v `seen`); the case
    files use check_case_c02g / model_obs_c02g of Gen/Effects.v, which pass the value read off the source *)
@@ -73,6 +137,7 @@ Definition model_obs_c02x_zl (zl : bool) (c : case02x) : list N :=
   | CStore2 s => model_obs_c02b s
   | CBytes b => model_obs_bytes b
   | CPlan c => model_obs_plan zl c
+  | CDecide c => model_obs_c03 c
   end.
 Definition check_case_c02x_zl (zl : bool) (c : case02x) : bool :=
   match c with
@@ -80,6 +145,7 @@ Definition check_case_c02x_zl (zl : bool) (c : case02x) : bool :=
   | CStore2 s => lN_eqb (model_obs_c02b s) (c2b_expect s)
   | CBytes b => lN_eqb (model_obs_bytes b) (cb_expect b)
   | CPlan c => check_case_plan zl c
+  | CDecide c => lN_eqb (model_obs_c03 c) (c3_expect c)
   end.
 Definition model_obs_c02x := model_obs_c02x_zl false.
 Definition check_case_c02x := check_case_c02x_zl false.
